@@ -32,7 +32,7 @@ def index():
 # ---------------------------------------------------------------------------
 # generated entries
 
-GEN_COUNT = int(os.environ.get("VERIF_GEN", "48"))
+GEN_COUNT = int(os.environ.get("VERIF_GEN", "64"))
 _GEN_SPECS = {}  # fid -> spec (drawn here or registered from a replay file)
 _GEN_DRAWN = {}  # seed -> [fid, ...]
 _GEN_BYTES = {}
